@@ -19,7 +19,8 @@ MANIFEST = {
             'lazily cached per-key balances and the wallet balance on old and new snapshots; every stored block in every '
             'receiver is compared with a replay-from-root reference ledger, and every snapshot taken earlier is '
             're-fingerprinted after later additions. Sampling over trees, orders and read timings.'
-            ' Half of the receivers install every state in a real ChainManager (set_coinstate) and read what it serves; a wallet builds spends against current and old snapshots between deliveries and balances/references are re-checked right after.',
+            ' Half of the receivers install every state in a real ChainManager (set_coinstate) and read what it serves; a wallet builds spends against current and old snapshots between deliveries and balances/references are re-checked right after.'
+            ' The key pool contains a mirror-image pair (same x coordinate); worthless outputs are listed like any other.',
     'note': 'Trusted: reference replay (refmodel/rules.py), repo serializers for ids; scrypt stand-in; hollow base or genesis root.',
 }
 
